@@ -469,7 +469,7 @@ Proof.
   destruct (reset_encryption c s) as [s1 i1]. cbn [fst] in K.
   set (s2 := match st s1 with Connecting => _ | _ => _ end).
   assert (K2 : keep s1 s2) by (subst s2; destruct (st s1); apply keep_push_event).
-  unfold start_advertising_impl, handle_start_advertising. cbn [fst st deferred cs bf set_deferred set_st].
+  unfold start_advertising_impl, handle_start_advertising. cbn [fst st deferred cs bf set_deferred set_st set_adv_ch].
   destruct K as (A1 & A2 & A3 & A4 & A5 & A6 & A7). destruct K2 as (B1 & B2 & B3 & B4 & B5 & B6 & B7).
   repeat split; congruence.
 Qed.
